@@ -19,8 +19,8 @@ def concrete_storages(prog, skip=("TreeStorage",)):
         if c.name in skip:
             continue
         owner, fn = prog.find_method(c, "update")
-        if fn is None:
-            continue
+        if fn is None or c.name.startswith("_"):
+            continue            # private intermediate bases are analysed through their public subclasses
         body = [n for n in fn.body if not (isinstance(n, ast.Expr) and isinstance(n.value, ast.Constant))]
         if len(body) == 1 and isinstance(body[0], ast.Raise):
             continue
